@@ -1361,6 +1361,19 @@ func (i valueImporter) importDictionaryValue(
 		if err != nil {
 			return nil, err
 		}
+
+		// Ensure that the key is well-formed, e.g. that an enum has a raw value of the enum's raw type.
+		// Usually this validation would be done outside of this function in ConformsToStaticType but
+		// we do it here because the NewDictionaryValue constructor hashes the keys,
+		// which requires them to be well-formed.
+
+		if !key.ConformsToStaticType(inter, interpreter.TypeConformanceResults{}) {
+			return nil, errors.NewDefaultUserError(
+				"cannot import dictionary: key does not conform to its type `%s`",
+				key.StaticType(inter),
+			)
+		}
+
 		keysAndValues[pairIndex*2] = key
 
 		value, err := i.importValue(pair.Value, valueType)
